@@ -948,7 +948,7 @@ def check_vec(ctx, files: set[str] | None = None) -> dict:
     the driver on the same bit patterns (`kern.evalv`), results compared element by element."""
     g, errors = pykern.translate_all()
     specs = [k for k in pykern.SYM_KERNELS if pykern.is_vector_kernel(k, g) or (k.name in errors and (k.out == 'vec' or k.vec_attrs))]
-    specs = [k for k in specs if files is None or k.file in files]
+    specs = [k for k in specs if (files is None or k.file in files) and not k.loop]
     summary = ctx.extra.setdefault('kernels', {})
     sm = summary.setdefault('vector', {'kernels': 0, 'points': 0, 'elements': 0, 'mismatches': 0, 'untranslatable': {}})
     for k in specs:
@@ -1084,4 +1084,136 @@ def check_fly_iteration(ctx, flights: int = 6) -> dict:
                 if sm['mismatches'] <= 3:
                     ctx.diverge(f'kernel {k.name} (residual of Builder._fly_iteration) vs implementation', {'kernel': k.name},
                                 f'implementation {w!r} vs translated kernel {have!r}')
+    return sm
+
+
+# --------------------------------------------------------------------------- driver loops (loop mode with array state)
+def check_driver_loops(ctx, profiles: int = 6) -> dict:
+    """Validates the driver-step kernels (`driver_*`): the real `iterate_flight_simulation_*` methods run on generated profiles; a
+    line tracer copies the mass array and the numeric locals every time the running frame reaches the first line of the loop body
+    and at the return; for every pass the generated kernel (mass before, the specific ground range that pass computed, the segment
+    lengths, the scalar parameters) is compared with the mass after (and with the take-off mass the pass prescribed)."""
+    import ast
+
+    g, errors = pykern.translate_all()
+    specs = [k for k in pykern.SYM_KERNELS if k.name.startswith('driver_')]
+    summary = ctx.extra.setdefault('kernels', {})
+    sm = summary.setdefault('driver_loops', {'kernels': 0, 'points': 0, 'elements': 0, 'mismatches': 0, 'untranslatable': {}})
+    for k in specs:
+        if k.name in errors:
+            sm['untranslatable'][k.name] = errors[k.name]
+            ctx.broken_obligation(f'kernel translator: {errors[k.name]}')
+    sm['stale'] = sorted(n for n in pykern.LAST_STALE if any(k.name == n for k in specs))
+    present = set(ctx.driver.outs([{'op': 'kern.names'}])[0]['present']) if ctx.driver.available() else set()
+    impl = Impl()
+    rng = make_rng(ctx.pid, ctx.seed, 'driver-kernels')
+    mod = pykern.Module.get('BADA/model.py')
+    groups: dict[str, list] = {}
+    for k in specs:
+        if k.name in errors:
+            continue
+        if k.name not in present:
+            ctx.broken_obligation(f'kernel {k.name} missing from the built driver (stale build?)')
+            continue
+        groups.setdefault(k.func.split('.')[1], []).append(k)
+    queue, seen = [], set()
+    for mname, ks in groups.items():
+        fn_ast = mod.method('Bada3FuelBurnModel', mname)
+        loop = next((st for st in fn_ast[1].body if isinstance(st, ast.For)), None) if fn_ast else None
+        if loop is None:
+            if not all(k.name in pykern.LAST_STALE for k in ks):
+                ctx.diverge('kernel scenario', {'group': mname}, 'no loop to observe')
+            continue
+        body_line = loop.body[0].lineno
+        for j in range(profiles):
+            eng = ['Jet', 'Turboprop', 'Piston'][j % 3]
+            P = _bada_params(rng, eng)
+            ap = impl.Bada3AircraftParameters()
+            ap.assign_parameters_fromdict(dict(P, engine_type=eng, ac_type='GEN'))
+            fb = impl.Bada3FuelBurnModel(ap)
+            n = int(rng.choice([2, 3, 6, 20]))
+            alt = np.sort(rng.uniform(500.0, 11000.0, n))
+            T = np.array(impl.sa.temperature_at_altitude_isa_bada4(alt), dtype=float)
+            v = rng.uniform(120.0, 240.0, n)
+            args = dict(temperature=T, altitude=alt, v_tas=v, rocd=rng.uniform(-5.0, 12.0, n), acceleration=np.zeros(n),
+                        in_cruise=rng.random(n) < 0.5, groundspeed=v + rng.uniform(-20.0, 20.0, n),
+                        segment_distance=rng.uniform(2e3, 8e4, n - 1))
+            m_ref = float(P['S_ref'] * rng.uniform(300.0, 600.0))
+            if 'constant_initial' in mname:
+                args['initial_mass'] = m_ref
+            elif 'constant_final' in mname:
+                args['final_mass'] = m_ref
+            else:
+                args.update(initial_mass_estimate=m_ref, mtow=float(m_ref * rng.choice([0.9, 1.0, 1.3])), oew=0.5 * m_ref,
+                            mpl=0.25 * m_ref, load_factor=float(rng.uniform(0.3, 1.0)))
+                args['reserve_fuel_fraction' if mname.endswith('fraction') else 'reserve_fuel'] = (
+                    float(rng.uniform(0.0, 0.2)) if mname.endswith('fraction') else float(rng.uniform(0.0, 0.03) * m_ref))
+            meth = getattr(fb, mname)
+            code = _unwrap(meth).__code__
+            snaps: list = []
+
+            def local(frame, event, arg, snaps=snaps):
+                if (event == 'line' and frame.f_lineno == body_line) or (event == 'return' and arg is not None):
+                    loc = frame.f_locals
+                    s_ = {n_: np.array(v_, dtype=float, copy=True) for n_, v_ in loc.items()
+                          if isinstance(v_, np.ndarray) and v_.dtype.kind in 'fiu'}
+                    s_.update({n_: float(v_) for n_, v_ in loc.items() if _numeric(v_) and np.ndim(v_) == 0})
+                    snaps.append(s_)
+                return local
+
+            old = sys.gettrace()
+            sys.settrace(lambda fr, ev, a: local if (ev == 'call' and fr.f_code is code) else None)
+            try:
+                with np.errstate(all='ignore'):
+                    meth(**args)
+            except Exception:  # noqa: BLE001
+                ctx.count('driver_scenario_refused')
+                continue
+            finally:
+                sys.settrace(old)
+            # (a first body statement that spans several source lines reports its first line more than once per pass: keep the
+            # first arrival of every pass — the loop variable tells the passes apart — and the return)
+            lv = loop.target.id if isinstance(loop.target, ast.Name) else None
+            kept: list = []
+            for s_ in snaps:
+                if kept and lv is not None and s_ is not snaps[-1] and kept[-1].get(lv) == s_.get(lv):
+                    continue
+                kept.append(s_)
+            snaps = kept
+            for before, after in zip(snaps, snaps[1:]):
+                for k in ks:
+                    pt = {'x': [], 'b': [], 'v': [], 'n': []}
+                    try:
+                        for i in k.inputs:
+                            name, kind = (i, 'real') if isinstance(i, str) else i
+                            src = after if name in k.cut else before       # the cut is what THIS pass computed
+                            if kind == 'vec':
+                                pt['v'].append([f2u(float(x)) for x in np.asarray(src[name], dtype=float).ravel()])
+                            else:
+                                pt['x'].append(f2u(float(src[name])))
+                        want = after[k.target]
+                    except KeyError as e:
+                        if k.name in pykern.LAST_STALE:
+                            ctx.count('source_tie_stale_unobservable:' + k.name)
+                        elif k.target == 'initial_mass' or str(e).strip("'") == 'initial_mass':
+                            pass          # (the take-off mass exists only after the first pass assigned it)
+                        else:
+                            ctx.diverge(f'kernel {k.name}', {'kernel': k.name}, f'driver state not observable: {e}')
+                        continue
+                    queue.append((k, {'op': 'kern.evalv', 'name': k.name, 'attrs': {}, 'vattrs': {}, 'pts': [pt]},
+                                  [float(x) for x in np.asarray(want, dtype=float).ravel()]))
+    if queue:
+        for (k, _op, want), got in zip(queue, ctx.driver.outs([q[1] for q in queue])):
+            have = [u2f(x) for x in got[0]]
+            seen.add(k.name)
+            sm['points'] += 1
+            sm['elements'] += len(want)
+            ctx.evaluations += 1
+            if not (len(want) == len(have) and all(close(a, b, RTOL, 1e-300) for a, b in zip(want, have))):
+                sm['mismatches'] += 1
+                if sm['mismatches'] <= 5:
+                    ctx.diverge(f'kernel {k.name} (one pass of the loop of {k.file}:{k.func}) vs implementation', {'kernel': k.name},
+                                f'implementation {want[:6]!r} vs translated kernel {have[:6]!r}')
+    sm['kernels'] = len(seen)
+    ctx.count('driver_kernel_points', sm['points'])
     return sm
